@@ -1,28 +1,22 @@
 package c05
 
 import (
+	"regexp"
 	"strconv"
-	"strings"
-
-	"pgregory.net/rapid"
 
 	"verif/harness/internal/gen"
 	"verif/harness/internal/model"
-	"verif/harness/internal/runlog"
 )
 
 // ---------------------------------------------------------------------------
-// model: what an input with dotted keys means under PathSep(".")
+// model: what an input means under an option set
 //
-// Every key is split at the separator; an integer literal in [0, MaxIdx]
-// addresses the list part of its node, everything else the dictionary. All
-// definitions are collected into one tree, independent of any order. A nil
-// value defines nothing (nil = absent).
-
-func isIndex(seg string) bool {
-	_, ok := model.IndexOf(seg, 1024)
-	return ok
-}
+// Every key is split at the separator (if one is given); a segment that is an
+// integer literal in [0, MaxIdx] addresses the list part of its node (unless
+// numeric keys are enabled and it is the only segment of its key), everything
+// else the dictionary. All definitions are collected into one tree,
+// independent of any order and of the Go representation. A nil value defines
+// nothing (nil = absent).
 
 type mnode struct {
 	prims    int       // non-nil primitive values given for this path
@@ -35,13 +29,13 @@ type mnode struct {
 	list     []*mnode
 }
 
-func (n *mnode) child(seg string) *mnode {
+func (n *mnode) child(seg string, idx int, isIdx bool) *mnode {
 	n.below = true
-	if i, ok := model.IndexOf(seg, 1024); ok {
-		for len(n.list) <= i {
+	if isIdx {
+		for len(n.list) <= idx {
 			n.list = append(n.list, &mnode{})
 		}
-		return n.list[i]
+		return n.list[idx]
 	}
 	if n.named == nil {
 		n.named = map[string]*mnode{}
@@ -56,6 +50,7 @@ func (n *mnode) child(seg string) *mnode {
 }
 
 type analysis struct {
+	o    OptSet
 	root *mnode
 
 	mustFail    bool   // some setting is defined twice
@@ -63,6 +58,10 @@ type analysis struct {
 	ambiguous   bool   // a primitive meets a container that holds nothing but nil / empty containers
 	throughPrim bool   // a dotted key runs through a node that (also) has a primitive value
 	underShared bool   // a conflict lies below a node that two container values were given for
+	hazard      bool   // a node has names next to a list part that the generic view renders under keys which are names when fed back (numeric keys enabled, or indices above MaxIdx): values are not compared
+	unclear     bool   // some key is not clear under the option set (empty segment, overlapping separators)
+
+	stripBrackets bool
 
 	shared             int // containers assembled from >= 2 spellings
 	contTwice          int // containers for which two container values were given
@@ -70,29 +69,56 @@ type analysis struct {
 	dotted             int // keys with >= 2 segments
 	idxSegs            int // index segments inside dotted keys
 	maxSegs            int
+	sameKeyTwice       int // objects that hold one key twice (struct fields, inline members)
+	decoyKeys          int // keys that contain a part of the separator or another separator and stay whole
+	escapedKeys        int // keys in brackets under EscapePath
+	numNames           int // integer literals that are names (numeric keys enabled, or above MaxIdx)
 }
+
+var decoyChars = regexp.MustCompile(`[^\pL\pN]`)
 
 func (a *analysis) addVal(n *mnode, v *gen.Tree) {
 	switch v.K {
 	case "nil":
 	case "obj":
 		n.contVals++
+		seen := map[string]bool{}
 		for i, k := range v.Keys {
-			segs := strings.Split(k, ".")
-			if len(segs) > 1 {
-				a.dotted++
-				for _, s := range segs {
-					if isIndex(s) {
-						a.idxSegs++
-					}
+			if seen[k] {
+				a.sameKeyTwice++
+			}
+			seen[k] = true
+			if !a.o.clear(k) {
+				a.unclear = true
+			}
+			segs := a.o.split(k)
+			multi := len(segs) > 1
+			if a.o.escaped(k) {
+				a.escapedKeys++
+				if a.stripBrackets {
+					segs = []string{k[1 : len(k)-1]}
 				}
+			}
+			if multi {
+				a.dotted++
 			}
 			if len(segs) > a.maxSegs {
 				a.maxSegs = len(segs)
 			}
 			cur := n
 			for j, s := range segs {
-				cur = cur.child(s)
+				idx, isIdx := a.o.index(s, multi)
+				switch {
+				case isIdx && multi:
+					a.idxSegs++
+				case !isIdx:
+					if _, lit := model.IndexOf(s, 1<<62); lit {
+						a.numNames++
+					} else if !a.o.escaped(k) && decoyChars.MatchString(s) {
+						a.decoyKeys++
+					}
+				}
+				cur = cur.child(s, idx, isIdx)
 				if j < len(segs)-1 {
 					cur.through++
 				}
@@ -102,7 +128,7 @@ func (a *analysis) addVal(n *mnode, v *gen.Tree) {
 	case "list":
 		n.contVals++
 		for i, e := range v.Vals {
-			a.addVal(n.child(strconv.Itoa(i)), e)
+			a.addVal(n.child("", i, true), e)
 		}
 	default:
 		n.prims++
@@ -125,6 +151,9 @@ func (a *analysis) walk(n *mnode, underShared bool) bool {
 		if a.walk(c, underShared) {
 			sub = true
 		}
+	}
+	if len(n.named) > 0 && len(n.list) > 0 && (a.o.NumKeys || int64(len(n.list)) > a.o.maxIdx()+1) {
+		a.hazard = true
 	}
 	note := func(kind string) {
 		if !a.mustFail {
@@ -160,8 +189,13 @@ func (a *analysis) walk(n *mnode, underShared bool) bool {
 	return n.prims > 0 || sub
 }
 
-func analyse(f *gen.Tree) *analysis {
-	a := &analysis{root: &mnode{}}
+func analyse(f *gen.Tree, o OptSet) *analysis { return analyseWith(f, o, false) }
+
+// analyseWith: EscapePath "allows the user to escape the path using
+// brackets"; whether the brackets remain part of the name is not stated, so
+// both readings are computed (stripBrackets) and either is accepted.
+func analyseWith(f *gen.Tree, o OptSet, stripBrackets bool) *analysis {
+	a := &analysis{o: o, root: &mnode{}, stripBrackets: stripBrackets}
 	a.addVal(a.root, f)
 	a.root.contVals = 0 // the input itself is not a second spelling of anything
 	a.walk(a.root, false)
@@ -192,319 +226,4 @@ func (n *mnode) reify() interface{} {
 		m[strconv.Itoa(i)] = e.reify()
 	}
 	return m
-}
-
-// ---------------------------------------------------------------------------
-// generator: a tree, a spelling of it, optionally a planted second definition
-
-var flatKeys = []string{"a", "b", "c", "d", "a", "b", "c", "0", "1"}
-
-type entry struct {
-	path  []string
-	val   *gen.Tree
-	joins []bool // joins[i]: segment i+1 is written in the same dotted key as segment i
-}
-
-func (e entry) groups() []string {
-	var out []string
-	cur := e.path[0]
-	for i := 1; i < len(e.path); i++ {
-		if e.joins[i-1] {
-			cur += "." + e.path[i]
-		} else {
-			out = append(out, cur)
-			cur = e.path[i]
-		}
-	}
-	return append(out, cur)
-}
-
-func extend(p []string, seg string) []string {
-	return append(append([]string(nil), p...), seg)
-}
-
-func drawContRepr(t *rapid.T) int {
-	// mostly generic maps, so that the insertion order matters; the rest spread over all choices
-	if rapid.IntRange(0, 2).Draw(t, "generic") > 0 {
-		return 0
-	}
-	return rapid.IntRange(0, 63).Draw(t, "repr")
-}
-
-func collectVal(t *rapid.T, v *gen.Tree, p []string, out *[]entry) {
-	switch {
-	case v.K == "obj" && len(v.Keys) > 0 && rapid.IntRange(0, 3).Draw(t, "inline") > 0:
-		for i, k := range v.Keys {
-			collectVal(t, v.Vals[i], extend(p, k), out)
-		}
-	case v.K == "list" && len(v.Vals) > 0 && rapid.IntRange(0, 2).Draw(t, "inline-list") == 0:
-		for i, e := range v.Vals {
-			collectVal(t, e, extend(p, strconv.Itoa(i)), out)
-		}
-	default:
-		*out = append(*out, entry{path: p, val: spellVal(t, v)})
-	}
-}
-
-// spellVal spells a value that is kept whole: objects inside it are spelled
-// on their own.
-func spellVal(t *rapid.T, v *gen.Tree) *gen.Tree {
-	switch v.K {
-	case "obj":
-		if len(v.Keys) == 0 {
-			return v.Clone()
-		}
-		return spellObj(t, v, nil)
-	case "list":
-		l := gen.List()
-		l.R = v.R
-		for _, e := range v.Vals {
-			l.Vals = append(l.Vals, spellVal(t, e))
-		}
-		return l
-	}
-	c := v.Clone()
-	if c.K != "nil" {
-		c.R = rapid.IntRange(0, 63).Draw(t, "primrepr")
-	} else {
-		c.R = rapid.IntRange(0, 1).Draw(t, "nilrepr")
-	}
-	return c
-}
-
-func drawJoins(t *rapid.T, n int) []bool {
-	if n <= 0 {
-		return nil
-	}
-	return rapid.SliceOfN(rapid.Bool(), n, n).Draw(t, "joins")
-}
-
-// fits reports whether e can be added to the spelled object root without
-// touching an existing key.
-func fits(root *gen.Tree, gs []string) bool {
-	cur := root
-	for _, g := range gs[:len(gs)-1] {
-		ch := cur.Get(g)
-		if ch == nil {
-			return true
-		}
-		if ch.K != "obj" {
-			return false
-		}
-		cur = ch
-	}
-	return cur.Get(gs[len(gs)-1]) == nil
-}
-
-func insert(t *rapid.T, root *gen.Tree, gs []string, val *gen.Tree) {
-	cur := root
-	for _, g := range gs[:len(gs)-1] {
-		ch := cur.Get(g)
-		if ch == nil {
-			ch = gen.Obj()
-			ch.R = drawContRepr(t)
-			cur.Put(g, ch)
-		}
-		cur = ch
-	}
-	cur.Put(gs[len(gs)-1], val)
-}
-
-// spellObj spells object o. plant, if not nil, may add entries that define a
-// path a second time.
-func spellObj(t *rapid.T, o *gen.Tree, plant func(es []entry) (entry, bool)) *gen.Tree {
-	var es []entry
-	for i, k := range o.Keys {
-		collectVal(t, o.Vals[i], []string{k}, &es)
-	}
-	for i := range es {
-		es[i].joins = drawJoins(t, len(es[i].path)-1)
-	}
-	root := gen.Obj()
-	root.R = o.R
-	var extra *entry
-	if plant != nil {
-		if e, ok := plant(es); ok {
-			extra = &e
-		}
-	}
-	order := rapid.Permutation(indices(len(es))).Draw(t, "order")
-	at := -1
-	if extra != nil {
-		at = rapid.IntRange(0, len(es)).Draw(t, "extra-at")
-	}
-	put := func(e entry) {
-		gs := e.groups()
-		if fits(root, gs) {
-			insert(t, root, gs, e.val)
-			return
-		}
-		// another cut of the same path that does not collide with the keys present
-		n := len(e.path) - 1
-		start := 0
-		if n > 0 {
-			start = rapid.IntRange(0, 1<<n-1).Draw(t, "recut")
-		}
-		for k := 0; k < 1<<n; k++ {
-			bits := (start + k) % (1 << n)
-			e.joins = make([]bool, n)
-			for i := range e.joins {
-				e.joins[i] = bits>>i&1 == 1
-			}
-			if gs := e.groups(); fits(root, gs) {
-				insert(t, root, gs, e.val)
-				return
-			}
-		}
-		// no spelling fits: the definition is left out
-	}
-	for i, j := range order {
-		if i == at {
-			put(*extra)
-		}
-		put(es[j])
-	}
-	if at == len(es) {
-		put(*extra)
-	}
-	return root
-}
-
-func indices(n int) []int {
-	out := make([]int, n)
-	for i := range out {
-		out[i] = i
-	}
-	return out
-}
-
-// primLeaves lists the paths of the non-nil primitives of o.
-func primLeaves(o *gen.Tree) [][]string {
-	var out [][]string
-	o.Walk(nil, func(p []string, n *gen.Tree) {
-		if n.IsPrim() && len(p) > 0 {
-			out = append(out, append([]string(nil), p...))
-		}
-	})
-	return out
-}
-
-var plantKinds = []string{"prim/prim", "container over prim", "prim over container", "container/container overlapping", "container/container disjoint", "nil over anything"}
-
-func otherPrim(t *rapid.T) *gen.Tree {
-	p := rapid.SampledFrom([]*gen.Tree{gen.Uint(1), gen.Uint(77), gen.Int(-5), gen.Str("dup"), gen.Str(""), gen.Bool(false), gen.Bool(true), gen.Float(2.5), gen.Uint(0)}).Draw(t, "dupval")
-	return p.Clone()
-}
-
-// nestUnder builds {rel[0]: {rel[1]: ... v}}, optionally with a dotted cut.
-func nestUnder(t *rapid.T, rel []string, v *gen.Tree) *gen.Tree {
-	if len(rel) == 0 {
-		return v
-	}
-	e := entry{path: rel, val: v, joins: drawJoins(t, len(rel)-1)}
-	root := gen.Obj()
-	root.R = drawContRepr(t)
-	insert(t, root, e.groups(), v)
-	return root
-}
-
-// genNested draws an object that is biased towards nested objects (the shared
-// generator produces mostly flat ones, which have nothing to flatten).
-func genNested(t *rapid.T, cfg *gen.TreeCfg, depth int) *gen.Tree {
-	o := gen.Obj()
-	n := rapid.IntRange(1, cfg.Width).Draw(t, "nkeys")
-	for i := 0; i < n; i++ {
-		k := rapid.SampledFrom(cfg.Keys).Draw(t, "key")
-		if o.Get(k) != nil {
-			continue
-		}
-		var v *gen.Tree
-		switch x := rapid.IntRange(0, 11).Draw(t, "child"); {
-		case depth > 0 && x < 6:
-			v = genNested(t, cfg, depth-1)
-		case depth > 0 && x < 8:
-			v = gen.GenList(t, cfg, depth-1)
-		case x == 11:
-			v = rapid.SampledFrom([]*gen.Tree{gen.Obj(), gen.List()}).Draw(t, "empty").Clone()
-		default:
-			v = gen.GenTree(t, cfg, 0)
-		}
-		o.Put(k, v)
-	}
-	o.R = drawContRepr(t)
-	return o
-}
-
-func genFlat(t *rapid.T, plant bool) FlatCase {
-	cfg := &gen.TreeCfg{Depth: 3, Width: 3, Keys: flatKeys, Strings: gen.HostileStrings, Reprs: true}
-	if runlog.Thorough() {
-		cfg.Depth, cfg.Width = 4, 4
-	}
-	tree := genNested(t, cfg, cfg.Depth)
-	if plant && rapid.IntRange(0, 2).Draw(t, "deepen") == 0 {
-		tree = gen.Obj().Put(rapid.SampledFrom([]string{"a", "b", "w"}).Draw(t, "wrapkey"), tree)
-	}
-	c := FlatCase{}
-	var planter func(es []entry) (entry, bool)
-	if plant {
-		planter = func(es []entry) (entry, bool) {
-			leaves := primLeaves(tree)
-			if len(leaves) == 0 {
-				return entry{}, false
-			}
-			kind := rapid.IntRange(0, len(plantKinds)-1).Draw(t, "plant")
-			l := rapid.SampledFrom(leaves).Draw(t, "leaf")
-			cut := len(l)
-			if kind >= 2 && kind <= 4 {
-				if len(l) < 2 {
-					// no container above this leaf except the input itself
-					kind = rapid.IntRange(0, 1).Draw(t, "plant2")
-				} else {
-					cut = rapid.IntRange(1, len(l)-1).Draw(t, "cut")
-				}
-			}
-			var val *gen.Tree
-			switch kind {
-			case 0:
-				val = otherPrim(t)
-			case 1:
-				k := rapid.SampledFrom([]string{"a", "b", "e", "0"}).Draw(t, "newkey")
-				val = nestUnder(t, []string{k}, otherPrim(t))
-				if rapid.IntRange(0, 3).Draw(t, "aslist") == 0 {
-					val = gen.List(otherPrim(t))
-				}
-			case 2:
-				val = otherPrim(t)
-			case 3:
-				val = nestUnder(t, l[cut:], otherPrim(t))
-				if rapid.IntRange(0, 2).Draw(t, "plus-disjoint") == 0 && val.Get("e") == nil {
-					val.Put("e", otherPrim(t))
-				}
-			case 4:
-				k := rapid.SampledFrom([]string{"e", "f", "e.f", "e.0"}).Draw(t, "freshkey")
-				val = gen.Obj().Put(k, otherPrim(t))
-				val.R = drawContRepr(t)
-			case 5:
-				// a nil value defines nothing, whatever the path holds otherwise
-				val = gen.Nil()
-				val.R = rapid.IntRange(0, 1).Draw(t, "nilrepr")
-				if rapid.Bool().Draw(t, "nil-above") && len(l) >= 2 {
-					cut = rapid.IntRange(1, len(l)-1).Draw(t, "cut")
-				}
-			}
-			c.Planted = plantKinds[kind]
-			p := l[:cut]
-			return entry{path: p, val: val, joins: drawJoins(t, len(p)-1)}, true
-		}
-	}
-	c.F = spellObj(t, tree, planter)
-	switch rapid.IntRange(0, 7).Draw(t, "wrap") {
-	case 0:
-		c.F = gen.List(c.F)
-	case 1:
-		c.F = gen.Obj().Put("w", c.F)
-	case 2:
-		c.F = gen.Obj().Put("w", gen.List(gen.Uint(1), c.F))
-	}
-	return c
 }
